@@ -187,6 +187,24 @@ def mirrored(case):
     return out
 
 
+@st.composite
+def balanced_net(draw, n, nh, na=None):
+    """amplitude-network parameters of a SLOWLY MIXING Gibbs kernel: ferromagnetic couplings of magnitude 2..4 with biases that balance them
+    (two well separated modes), so that the law of a chain from a fixed start still moves after 16, 32, ... steps"""
+    f = st.floats(2.0, 4.0, allow_nan=False, width=64)
+    e = st.floats(-0.4, 0.4, allow_nan=False, width=64)
+    W = [[draw(f) for _ in range(n)] for _ in range(nh)]
+    net = {"W": W, "c": [-sum(r) / 2 + draw(e) for r in W]}
+    col = [sum(W[j][i] for j in range(nh)) for i in range(n)]
+    if na is not None:
+        U = [[draw(f) for _ in range(n)] for _ in range(na)]
+        net["U"] = U
+        net["d"] = [-sum(r) / 2 + draw(e) for r in U]
+        col = [col[i] + sum(U[j][i] for j in range(na)) for i in range(n)]
+    net["b"] = [-col[i] / 2 + draw(e) for i in range(n)]
+    return net
+
+
 class _Boom(RuntimeError):
     """raised on purpose by a harness callback"""
 
